@@ -1874,6 +1874,21 @@ impl<'a> Socket<'a> {
             control = TcpControl::None;
         }
 
+        // Likewise, if the tail of the segment lies beyond the receive window and was
+        // trimmed above, the FIN does not directly follow the data we accepted: disregard it,
+        // the remote will retransmit the rest together with the FIN.
+        if control == TcpControl::Fin
+            && !matches!(self.state, State::Listen | State::SynSent)
+            && window_end < segment_end
+        {
+            tcp_trace!(
+                "ignoring FIN because the segment was trimmed to the window. window_end={} segment_end={}",
+                window_end,
+                segment_end
+            );
+            control = TcpControl::None;
+        }
+
         // Validate and update the state.
         match (self.state, control) {
             // RSTs are not accepted in the LISTEN state.
